@@ -217,42 +217,68 @@ def block_rotation(n, theta):
 
 # ----------------------------------------------------------------------------- displacements
 
-MASS_KINDS = ("unit", "elements", "extreme")
+MASS_KINDS = ("unit", "elements", "extreme", "light", "kg")
 _ELEMENTS = (1.008, 15.999, 28.0855, 40.078)
+_AMU_KG = 1.66053906660e-27
 
 
 def masses(natoms, kind):
+    """Positive masses 'of any unit' (docstring of evec_disp2eig)."""
     if kind == "unit":
         return [1] * natoms
-    if kind == "elements":
+    if kind == "elements":                                   # amu
         return [_ELEMENTS[k % 4] for k in range(natoms)]
     if kind == "extreme":
         return [1.0 if k % 2 else 1.0e4 for k in range(natoms)]
+    if kind == "light":                                      # same ratios, a unit 1e10 times larger
+        return [_ELEMENTS[k % 4] * 1e-10 for k in range(natoms)]
+    if kind == "kg":                                         # SI
+        return [_ELEMENTS[k % 4] * _AMU_KG for k in range(natoms)]
     raise ValueError(kind)
 
 
-SCALINGS = ("1", "1e-3", "1e3", "phase", "mixed")
+DECADES = ("1e-12", "1e-9", "1e-6", "1e-5", "1e-4", "1e-3", "1", "1e3", "1e6", "1e12")
+#   decade   every row has that norm, real positive factor
+#   phase    unit norm, a different complex phase per row
+#   mixed    norms 1e-3..1e3 cycling with the row index, complex phases
+#   alt      NEIGHBOURING rows with norms 1e-9 and 1e3 in one matrix, complex phases
+#   ladder   row k has the norm DECADES[k mod 10]: all decades side by side, complex phases
+SCALINGS = DECADES + ("phase", "mixed", "alt", "ladder")
+_GOLD = 2.399963229728653
 
 
 def row_scaling(nrows, kind):
     k = np.arange(nrows)
-    if kind == "1":
-        return np.ones(nrows)
-    if kind == "1e-3":
-        return np.full(nrows, 1e-3)
-    if kind == "1e3":
-        return np.full(nrows, 1e3)
+    ph = np.exp(1j * (0.4 + _GOLD * k))
+    if kind in DECADES:
+        return np.full(nrows, float(kind))
     if kind == "phase":
-        return np.exp(1j * (0.4 + 2.399963229728653 * k))
+        return ph
     if kind == "mixed":
-        return 10.0 ** ((k % 7) - 3.0) * np.exp(1j * (0.4 + 2.399963229728653 * k))
+        return 10.0 ** ((k % 7) - 3.0) * ph
+    if kind == "alt":
+        return np.where(k % 2 == 0, 1e-9, 1e3) * ph
+    if kind == "ladder":
+        return np.array([float(DECADES[i % len(DECADES)]) for i in k]) * ph
     raise ValueError(kind)
 
 
-def displacements(eig, mass, scal):
-    """u = s * e / sqrt(m) per Cartesian component (what matdyn prints as a displacement)."""
+NORM_MODES = ("mw", "raw")
+
+
+def displacements(eig, mass, scal, mode="mw"):
+    """Displacement rows belonging to the eigenvector rows `eig`: u_k = c_k * e_k / sqrt(m) per Cartesian
+    component.  mode "mw":  c_k = s_k, i.e. |s_k| is the MASS-WEIGHTED norm  ||sqrt(m) u_k||;
+    mode "raw": c_k = s_k / ||e_k / sqrt(m)||, i.e. |s_k| is the norm of the displacement itself (then
+    the mass-weighted norm is |s_k| times a factor of the order sqrt(m): tiny for light masses).
+    Either way sqrt(m) u_k is a positive multiple of (s_k/|s_k|) e_k."""
     m3 = np.repeat(np.asarray(mass, dtype=float), 3)
-    return np.asarray(scal)[:, None] * np.asarray(eig) / np.sqrt(m3)[None, :]
+    u = np.asarray(eig) / np.sqrt(m3)[None, :]
+    if mode == "raw":
+        u = u / np.linalg.norm(u, axis=1)[:, None]
+    elif mode != "mw":
+        raise ValueError(mode)
+    return np.asarray(scal)[:, None] * u
 
 
 # ----------------------------------------------------------------------------- matdyn files
